@@ -209,7 +209,7 @@ def file_sink_concurrency(ctx, binary, recs):
         outp = os.path.join(ctx.scratch, "c19_fileconc_%s.json" % label.replace("=", ""))
         e = {"VERIF_OUT": outp, "VERIF_ROUNDS": rounds, "LOG_LEVEL": "error"}
         e.update(env)
-        rc, txt = ctx.run_bin(binary, "^TestVerifC19FileConc$", env=e, timeout=1200)
+        rc, txt = ctx.run_bin(binary, "^TestVerifC19FileConc$", env=e, timeout=3600)
         if rc != 0 or not os.path.exists(outp):
             if "panic:" in txt and "plugin/output/file" in txt and "zz_verif" not in txt.split("panic:", 1)[1][:1500]:
                 recs.append({"kind": "panic", "sink": "file", "stage": "file_sink_concurrency", "panic": txt[txt.index("panic:"):][:600]})
@@ -242,7 +242,7 @@ def gelf_names(ctx, binary, recs, cases):
     with open(path, "w") as f:
         for c in sorted(cases, key=lambda c: json.dumps(c["name"])):
             f.write(json.dumps({"name": c["name"], "want": c["want"]}) + "\n")
-    rc, txt = ctx.run_bin(binary, "^TestVerifC19GelfNames$", env={"VERIF_CASES": path, "VERIF_OUT": outp, "LOG_LEVEL": "error"}, timeout=600)
+    rc, txt = ctx.run_bin(binary, "^TestVerifC19GelfNames$", env={"VERIF_CASES": path, "VERIF_OUT": outp, "LOG_LEVEL": "error"}, timeout=1800)
     if rc != 0 or not os.path.exists(outp):
         if "panic:" in txt and "gelf.go" in txt:
             recs.append({"kind": "panic", "sink": "gelf", "stage": "gelf_names", "panic": txt[txt.index("panic:"):][:600]})
@@ -267,7 +267,7 @@ def gelf_stream(ctx, binary, recs):
     rounds = 2 if ctx.tier == "quick" else 6
     outp = os.path.join(ctx.scratch, "c19_gelfstream.json")
     rc, txt = ctx.run_bin(binary, "^TestVerifC19GelfStream$", env={"VERIF_OUT": outp, "VERIF_ROUNDS": rounds, "LOG_LEVEL": "error"},
-                          timeout=900)
+                          timeout=2700)
     if rc != 0 or not os.path.exists(outp):
         raise vlib.Infra("C19 gelf stream harness failed rc=%s:\n%s" % (rc, txt[-3000:]))
     r = json.load(open(outp))
@@ -313,27 +313,27 @@ def run(ctx):
 
     def side_runs():
         # strict statement: must fail with the deviation, must hold without it
-        r = bg.tlc("OutputPayload", "OutputPayload_strict.cfg", deadlock=False, timeout=900, workers=4,
+        r = bg.tlc("OutputPayload", "OutputPayload_strict.cfg", deadlock=False, timeout=2700, workers=4,
                    name="strict SplitCovers, D14 on")
         if r.ok or r.violated != "SplitCovers":
             raise vlib.Infra("strict SplitCovers with D14 on: expected a SplitCovers counterexample, got ok=%s violated=%s"
                              % (r.ok, r.violated))
-        r = bg.tlc("OutputPayload", "OutputPayload_strict.cfg", deadlock=False, timeout=900, workers=4,
+        r = bg.tlc("OutputPayload", "OutputPayload_strict.cfg", deadlock=False, timeout=2700, workers=4,
                    overrides={"D14_SingleTooLargeAborts": "FALSE"}, name="strict SplitCovers, D14 off (ideal)")
         if not r.ok:
             raise vlib.Infra("strict SplitCovers with D14 off should hold: %s\n%s" % (r.violated, r.out[-2000:]))
         # spec mutants: each mechanism switch turned off must break an invariant
         mutants = {}
-        t = bg.tlc("OutputTransport", "OutputTransport_quick.cfg", deadlock=False, timeout=600, workers=2,
+        t = bg.tlc("OutputTransport", "OutputTransport_quick.cfg", deadlock=False, timeout=1800, workers=2,
                    name="OutputTransport: the body that reaches a sink is the payload, whatever endpoints failed, gzip or not")
         if not t.ok:
             raise vlib.Infra("OutputTransport should hold: %s" % t.violated)
-        tm = bg.tlc("OutputTransport", "OutputTransport_quick.cfg", deadlock=False, timeout=600, workers=2,
+        tm = bg.tlc("OutputTransport", "OutputTransport_quick.cfg", deadlock=False, timeout=1800, workers=2,
                     overrides={"M_BodyBuiltOncePerAttempt": "FALSE"}, name="mutant M_BodyBuiltOncePerAttempt off")
         if tm.ok or tm.violated != "BodyIsPayload":
             raise vlib.Infra("spec mutant M_BodyBuiltOncePerAttempt=FALSE is not rejected by BodyIsPayload")
         for sw in ("M_ResetBegin", "M_ResetBuf", "M_SkipParent", "M_ReencodeAfterGiveUp", "M_TopicPerEvent"):
-            m = bg.tlc("OutputPayload", "OutputPayload_mut.cfg", deadlock=False, timeout=900, workers=4,
+            m = bg.tlc("OutputPayload", "OutputPayload_mut.cfg", deadlock=False, timeout=2700, workers=4,
                        overrides={sw: "FALSE"}, name="mutant %s off" % sw)
             if m.ok or m.kind != "invariant":
                 raise vlib.Infra("spec mutant %s=FALSE is not detected by the invariants (ok=%s, %s)" % (sw, m.ok, m.violated))
@@ -341,32 +341,32 @@ def run(ctx):
         # the file sink under concurrency (two workers, seal-up): holds as coded, and the chunked write with the lock
         # released per chunk is rejected both with two workers and with a seal-up
         r = bg.tlc("OutputFileSink", "OutputFileSink_quick.cfg" if quick else "OutputFileSink_thorough.cfg", deadlock=False,
-                   timeout=900, workers=4, name="OutputFileSink: one append per batch under the lock")
+                   timeout=2700, workers=4, name="OutputFileSink: one append per batch under the lock")
         if not r.ok:
             raise vlib.Infra("OutputFileSink should hold: %s\n%s" % (r.violated, r.out[-2000:]))
         for cfg in ("OutputFileSink_mut_workers.cfg", "OutputFileSink_mut_seal.cfg"):
-            m = bg.tlc("OutputFileSink", cfg, deadlock=False, timeout=600, workers=2,
+            m = bg.tlc("OutputFileSink", cfg, deadlock=False, timeout=1800, workers=2,
                        overrides={"M_BatchWrittenUnderOneLock": "FALSE"}, name="mutant M_BatchWrittenUnderOneLock off (%s)" % cfg)
             if m.ok or m.kind != "invariant":
                 raise vlib.Infra("spec mutant M_BatchWrittenUnderOneLock=FALSE (%s) is not rejected" % cfg)
             mutants["M_BatchWrittenUnderOneLock/" + cfg[len("OutputFileSink_mut_"):-4]] = m.violated
         # the connection-oriented sink: whole frames per connection, the connection abandoned after a failed / partial write
         r = bg.tlc("OutputStreamSink", "OutputStreamSink_quick.cfg" if quick else "OutputStreamSink_thorough.cfg", deadlock=False,
-                   timeout=900, workers=4, name="OutputStreamSink: a connection carries whole frames")
+                   timeout=2700, workers=4, name="OutputStreamSink: a connection carries whole frames")
         if not r.ok:
             raise vlib.Infra("OutputStreamSink should hold: %s\n%s" % (r.violated, r.out[-2000:]))
-        m = bg.tlc("OutputStreamSink", "OutputStreamSink_quick.cfg", deadlock=False, timeout=600, workers=2,
+        m = bg.tlc("OutputStreamSink", "OutputStreamSink_quick.cfg", deadlock=False, timeout=1800, workers=2,
                    overrides={"M_ReconnectAfterFailedWrite": "FALSE"}, name="mutant M_ReconnectAfterFailedWrite off")
         if m.ok or m.kind != "invariant":
             raise vlib.Infra("spec mutant M_ReconnectAfterFailedWrite=FALSE is not rejected")
         mutants["M_ReconnectAfterFailedWrite"] = m.violated
         mutants["M_BodyBuiltOncePerAttempt"] = tm.violated
-        g = bg.tlc("GelfFieldName", "GelfFieldName_quick.cfg" if quick else "GelfFieldName_thorough.cfg", deadlock=False, timeout=900,
+        g = bg.tlc("GelfFieldName", "GelfFieldName_quick.cfg" if quick else "GelfFieldName_thorough.cfg", deadlock=False, timeout=2700,
                    workers=4, name="GelfFieldName: formatExtraField over name alphabets")
         if not g.ok:
             raise vlib.Infra("GelfFieldName should hold: %s\n%s" % (g.violated, g.out[-1500:]))
         side_results["gelf_names"] = g.printed
-        gm = bg.tlc("GelfFieldName", "GelfFieldName_mut.cfg", deadlock=False, timeout=600, workers=2,
+        gm = bg.tlc("GelfFieldName", "GelfFieldName_mut.cfg", deadlock=False, timeout=1800, workers=2,
                     overrides={"M_NameBytesAsciiOnly": "FALSE"}, name="mutant M_NameBytesAsciiOnly off")
         if gm.ok or gm.kind != "invariant":
             raise vlib.Infra("spec mutant M_NameBytesAsciiOnly=FALSE is not rejected")
@@ -375,7 +375,7 @@ def run(ctx):
     side_f = pool.submit(side_runs)
 
     cfg = "OutputPayload_quick.cfg" if quick else "OutputPayload_thorough.cfg"
-    res = ctx.tlc_expect_ok("OutputPayload", cfg, timeout=900 if quick else 2400, deadlock=False, workers=12,
+    res = ctx.tlc_expect_ok("OutputPayload", cfg, timeout=2700 if quick else 2400, deadlock=False, workers=12,
                             name="faithful (D14 on), all invariants, export")
     cases = res.printed
     if len(cases) < 1000:
@@ -471,7 +471,7 @@ def run(ctx):
                                     "batches": c["batches"], "pats": c["pats"], "gzip": c.get("gzip", False), "dead": c.get("dead", 0),
                                     "fail": c.get("fail") or [False] * len(c["batches"]), "dq": c.get("dq", False)}) + "\n")
         outp = os.path.join(ctx.scratch, "c19_%s_out.ndjson" % sink)
-        rc, txt = ctx.run_bin(bins[sink], "^TestVerifC19$", env={"VERIF_CASES": path, "VERIF_OUT": outp, "LOG_LEVEL": "error"}, timeout=2400)
+        rc, txt = ctx.run_bin(bins[sink], "^TestVerifC19$", env={"VERIF_CASES": path, "VERIF_OUT": outp, "LOG_LEVEL": "error"}, timeout=7200)
         if rc != 0:
             if "panic:" in txt and ("plugin/output/" in txt or "pipeline/batch" in txt):
                 i = txt.index("panic:")
